@@ -130,6 +130,33 @@ struct WorkerOut {
     wall_s: f64,
 }
 
+/// Hash lists are written as raw little-endian u64 files next to the worker's JSON
+/// output (`<out>.<name>.u64`); `cooksim distinct` merges them.
+pub fn write_hashes(out_path: &str, name: &str, v: &[u64]) {
+    if out_path.is_empty() {
+        return;
+    }
+    let mut bytes = Vec::with_capacity(v.len() * 8);
+    for h in v {
+        bytes.extend_from_slice(&h.to_le_bytes());
+    }
+    let p = format!("{out_path}.{name}.u64");
+    std::fs::write(&p, bytes).unwrap_or_else(|e| die(&format!("{p}: {e}")));
+}
+
+fn distinct(a: &Args) -> i32 {
+    let mut all: Vec<u64> = Vec::new();
+    for f in &a.pos[1..] {
+        let b = std::fs::read(f).unwrap_or_else(|e| die(&format!("{f}: {e}")));
+        all.extend(b.chunks_exact(8).map(|c| u64::from_le_bytes(c.try_into().unwrap())));
+    }
+    let total = all.len();
+    all.sort_unstable();
+    all.dedup();
+    println!("{{\"total\": {total}, \"distinct\": {}}}", all.len());
+    0
+}
+
 fn init_process() {
     // shuttle installs its panic hook when the first Runner is created; create one,
     // then replace the hook by a silent one that only remembers the message.
@@ -285,6 +312,14 @@ fn c18_worker(a: &Args) -> i32 {
     }
     out.maps_created = cooklang::verif_seam::created() - maps0;
     out.wall_s = t0.elapsed().as_secs_f64();
+    if !out_path.is_empty() {
+        write_hashes(&out_path, "nontrivial", &out.nontrivial_hashes);
+        write_hashes(&out_path, "schedules", &out.schedule_hashes);
+        write_hashes(&out_path, "scenarios", &out.scenario_hashes);
+        out.nontrivial_hashes.clear();
+        out.schedule_hashes.clear();
+        out.scenario_hashes.clear();
+    }
     let js = serde_json::to_string(&out).unwrap();
     if out_path.is_empty() {
         println!("{js}");
@@ -379,6 +414,19 @@ fn main() {
         "c11" => c11::worker(&a),
         "replay" => replay(&a),
         "minimise" => minimise::run(&a),
+        "distinct" => distinct(&a),
+        "realthreads" => {
+            // regenerate the scenario of a run index and execute it on real OS threads
+            let pool = Pool::load(&a.str("repo", "/repo"));
+            let rs = mix3(a.u64("seed", 1), a.u64("salt", 1), a.u64("run-index", 0));
+            let sc = gen_scenario(rs, &pool);
+            let v = c18::run_real_threads(&sc);
+            for x in &v {
+                println!("REAL-THREADS class={} key={} :: {}", x.class, x.key, x.detail);
+            }
+            println!("REAL-THREADS-DONE violations={}", v.len());
+            if v.is_empty() { 0 } else { 1 }
+        }
         _ => die("usage: cooksim c18|c11|replay|minimise ..."),
     };
     std::process::exit(code);
